@@ -51,6 +51,9 @@ type TableSpec struct {
 	// Probe, if set, is a value of Fn whose abstract value per cell is the outcome
 	// (key "probe"); evaluation of the cell stops once it is defined.
 	Probe ssa.Value
+	// RetRender, if set, renders a non-constant result of a return of Fn (used to
+	// decode returned composite literals); "" keeps the symbolic form.
+	RetRender func(ret *ssa.Return, i int) string
 }
 
 type evalOutcome struct {
@@ -329,8 +332,11 @@ func (ev *evaluator) run(f *frame, out *evalOutcome, depth int) []string {
 				pred, blk = blk, blk.Succs[0]
 			case *ssa.Return:
 				var res []string
-				for _, r := range x.Results {
+				for i, r := range x.Results {
 					v := ev.val(f, r)
+					if v == absUnknown && ev.spec.RetRender != nil && f.fn == ev.spec.Fn {
+						v = ev.spec.RetRender(x, i)
+					}
 					if v == absUnknown {
 						v = "sym:" + f.syms.Sym(r)
 					}
